@@ -124,4 +124,3 @@ End GlueHidden.
 (* ---- (e) src/tree/taffy_tree.rs: every mutator ends its edit with ONE unconditional self.mark_dirty(x)?; the node it names ---- *)
 Definition glue_mutator_marks : list (string * string) := [("set_node_context", "node"); ("add_child", "parent"); ("insert_child_at_index", "parent"); ("set_children", "parent"); ("remove_child_at_index", "parent"); ("remove_children_range", "parent"); ("replace_child_at_index", "parent"); ("set_style", "node")].
 
-
